@@ -86,8 +86,11 @@ def replayOp (n : Nat) (nonzero : List α → Bool) (op : COp P) (ψ : List α) 
       if w' ≠ w then [] else
       [(project n q false ψ, w), (gateOn (P := P) n .X [q] (project n q true ψ), w)]
   | .resetAll =>
+      -- reset every qubit in turn (hidden outcome per qubit): every candidate is a multiple of
+      -- |0…0⟩ and the squared norms of the candidates add up to the squared norm of `ψ`
       if w' ≠ w then [] else
-      [((List.range (2 ^ n)).map fun i => if i = 0 then (1 : α) else 0, w)]
+      ((List.range n).foldl (fun cands q => cands.flatMap fun φ =>
+          [project n q false φ, gateOn (P := P) n .X [q] (project n q true φ)]) [ψ]).map fun φ => (φ, w)
   | .barrier _ => if w' = w then [(ψ, w)] else []
 
 /-- forced replay of a whole shot; `outs` = the word after each operation -/
